@@ -44,11 +44,15 @@ def work(args):
     res = []
     for mid in items:
         prop = mid.split("-")[0]
+        if ":" in mid:  # cross run: <seed id>:<check to run>
+            mid, prop = mid.split(":")
         patch = os.path.join(V, "seeded", mid, "patch.diff")
         sh(["git", "-C", mw, "checkout", "--", "."])
         sh(["git", "-C", mw, "clean", "-fdq"])
         a = sh(["git", "-C", mw, "apply", "--whitespace=nowarn", patch])
         ent = {"id": mid, "property": prop}
+        if prop != mid.split("-")[0]:
+            ent["id"] = mid + ":" + prop
         if a.returncode != 0:
             ent["apply_error"] = a.stderr[-400:]
             res.append(ent)
@@ -71,17 +75,20 @@ def main():
     ap.add_argument("--workers", type=int, default=6)
     ap.add_argument("--only", default="")
     ap.add_argument("--thorough-on-miss", action="store_true")
+    ap.add_argument("--pairs", default="", help="cross runs, e.g. C01-m8:C03,C14-m8:C04 (results in seeded/cross.json)")
     a = ap.parse_args()
     ids = sorted(d for d in os.listdir(os.path.join(V, "seeded")) if os.path.isfile(os.path.join(V, "seeded", d, "patch.diff")))
     if a.only:
         ids = [x for x in ids if x in a.only.split(",")]
+    if a.pairs:
+        ids = a.pairs.split(",")
     n = max(1, min(a.workers, len(ids)))
     buckets = [ids[i::n] for i in range(n)]
     allres = []
     with cf.ThreadPoolExecutor(n) as ex:
         for r in ex.map(work, [(i, b, a.thorough_on_miss) for i, b in enumerate(buckets)]):
             allres += r
-    path = os.path.join(V, "seeded", "results.json")
+    path = os.path.join(V, "seeded", "cross.json" if a.pairs else "results.json")
     old = json.load(open(path)) if os.path.exists(path) else {}
     for r in allres:
         old[r["id"]] = r
